@@ -198,7 +198,7 @@ def run(ctx):
             why = so[0]
         elif so[0].startswith("stuck"):
             why = "src-" + so[0]
-            if not (so[2].strip() or o["core"][2].strip()):
+            if not so[2].strip():
                 # (after an uninterpreted extern "go" call nothing is comparable, `stuck` included)
                 ctx.broken_ties.append(("SrcSem cannot run the program (model gap)", f"{pid}: {so[0]}"))
             else:
@@ -215,7 +215,7 @@ def run(ctx):
             fallback[why] = fallback.get(why, 0) + 1
         n_gen += pid.startswith("gen")
         ref = o[ref_stage]
-        ext = bool(ref[2].strip()) or bool(o["core"][2].strip())
+        ext = bool(ref[2].strip())
         n_extern += ext
         payload = {"id": pid, "src": d.get("src"), "outcomes": {k: {"status": v[0], "stdout": vlib.unesc(v[1])[:400]} for k, v in o.items()},
                    "reference_stage": ref_stage}
